@@ -73,6 +73,10 @@ func (p *Prog) applyInlining() {
 	if len(st.isNew) == 0 {
 		return
 	}
+	p.newHelpers = map[*types.Func]bool{}
+	for fn := range st.isNew {
+		p.newHelpers[fn] = true
+	}
 	p.SSA() // from the unmodified trees
 	for _, pk := range p.ServerPkgs() {
 		info := pk.TypesInfo
